@@ -27,6 +27,7 @@ func main() {
 	noControls := flag.Bool("no-controls", false, "do not inject positive controls (debug)")
 	verbose := flag.Bool("v", false, "print every non-ok obligation")
 	all := flag.Bool("all", false, "print every obligation")
+	explore := flag.String("explore", "", "development aid: statement-swap mutants of functions whose name contains this string ('all'); prints the ones no rule reports")
 	flag.Parse()
 
 	if *explain != "" {
@@ -51,6 +52,18 @@ func main() {
 		seed, _ = strconv.ParseInt(s, 10, 64)
 	}
 
+	if *explore != "" {
+		prog, err := load.Load(load.Config{Repo: *repo, Patterns: rules.CorePatterns})
+		die(err)
+		m, err := model.Build(prog)
+		die(err)
+		f := *explore
+		if f == "all" {
+			f = ""
+		}
+		rules.Explore(m, *repo, f)
+		return
+	}
 	if *dump != "" {
 		prog, err := load.Load(load.Config{Repo: *repo, Patterns: rules.AllPatterns()})
 		die(err)
